@@ -1456,6 +1456,24 @@ fn reseal(block: &mut Block, sk: &SaitoPrivateKey) {
 }
 
 /// a fresh node holding `chain` (all blocks were accepted by another node before)
+/// add_block for an adversarial (tampered, re-signed) block: a panic of the node while it processes the block
+/// (for instance its own supply check after it accepted a forged payout) is caught and reported as a failure
+/// of the property on this input instead of killing the harness
+async fn add_block_caught(n: &mut Node, b: Block, ctx: &mut Ctx, case: usize, what: &str, desc: &str) -> AddClass {
+    let id = b.id;
+    match verif_harness::chainsim::futures_catch(AssertUnwindSafe(n.add_block(b))).await {
+        Ok(cl) => cl,
+        Err(m) => {
+            ctx.summary.oracle_failure(
+                case,
+                &format!("the node panicked while adding block {} ({}): {} -- a tampered block must be refused, not crash the node", id, what, m),
+                desc,
+            );
+            AddClass::Panicked
+        }
+    }
+}
+
 async fn replay_node(params: &Params, chain: &[Block]) -> Option<Node> {
     let mut node = Node::new(params, 1);
     for b in chain {
@@ -1691,7 +1709,7 @@ async fn run_payout_scenario(ctx: &mut Ctx, rng: &mut Rng, keys: &Keys, cases: &
                 c.transactions.push(t);
                 reseal(&mut c, &node.sk);
                 if let Some(mut n2) = replay_node(&params, &chain[..chain.len() - 1]).await {
-                    let cl = n2.add_block(c.clone()).await;
+                    let cl = add_block_caught(&mut n2, c.clone(), ctx, first_case + produced, "ticket-less block with a stray fee transaction paying 1000 to key#8", "{\"part\":\"payout\",\"check\":\"stray fee transaction in a ticket-less block\"}").await;
                     ctx.summary.count("payout.stray_fee_tx", &format!("{:?}", cl));
                     if cl == AddClass::OnChain {
                         ctx.summary.oracle_failure(
@@ -1843,7 +1861,7 @@ async fn run_payout_scenario(ctx: &mut Ctx, rng: &mut Rng, keys: &Keys, cases: &
                     break;
                 }
             };
-            let cl = n2.add_block(c.clone()).await;
+            let cl = add_block_caught(&mut n2, c.clone(), ctx, case, &format!("tampered, re-signed fee transaction: {}", FEE_TAMPER[kind]), &desc).await;
             let (couts, cn) = fee_outputs(&c, keys);
             ctx.summary.count("payout.tampered", &format!("{}:{:?}", FEE_TAMPER[kind], cl));
             if cl == AddClass::OnChain {
@@ -2011,7 +2029,7 @@ async fn run_long_chain_scenario(ctx: &mut Ctx, rng: &mut Rng, keys: &Keys, gp: 
                     return;
                 }
             };
-            let cl = n2.add_block(c.clone()).await;
+            let cl = add_block_caught(&mut n2, c.clone(), ctx, case, &format!("long chain, tampered, re-signed fee transaction: {}", FEE_TAMPER[kind]), &desc).await;
             let (couts, cn) = fee_outputs(&c, keys);
             ctx.summary.count("longchain.tampered", &format!("{}:{:?}", beyond, cl));
             if cl == AddClass::OnChain {
